@@ -76,7 +76,7 @@ def implied_timescales(trajs, lagtimes, ntimescales=None, reversible=False):
     # initialize result
     impl_timescales = np.zeros((len(lagtimes), ntimescales))
 
-    for idx, lagtime in enumerate(lagtimes):
+    for idx, lagtime in enumerate(lagtimes.tolist()):
         transmat, _ = trajs.estimate_markov_model(lagtime)
         impl_timescales[idx] = _implied_timescales(
             transmat, lagtime, ntimescales=ntimescales,
